@@ -61,16 +61,19 @@ impl Line {
 
     /// does this line can completely cover line a b?
     pub(crate) fn overlaps(&self, a: Point, b: Point) -> bool {
-        let segment = Segment::new(*self.start, *self.end);
-        let identity = &Isometry::identity();
-        segment.contains_point(identity, &a)
-            && segment.contains_point(identity, &b)
+        self.contains_point(a) && self.contains_point(b)
     }
 
+    /// the point lies on this segment: collinear with the end points
+    /// and within their bounding box
     fn contains_point(&self, p: Point) -> bool {
-        let segment = Segment::new(*self.start, *self.end);
-        let identity = &Isometry::identity();
-        segment.contains_point(identity, &p)
+        let (a, b) = (self.start, self.end);
+        let cross = (b.x - a.x) * (p.y - a.y) - (b.y - a.y) * (p.x - a.x);
+        cross == 0.0
+            && p.x >= a.x.min(b.x)
+            && p.x <= a.x.max(b.x)
+            && p.y >= a.y.min(b.y)
+            && p.y <= a.y.max(b.y)
     }
 
     fn touching_line(&self, other: &Self) -> bool {
